@@ -90,7 +90,7 @@ func catalogue(w *world, check string) []kase {
 						f.Timing = "early"
 						out = append(out, kase{Scenario: w.sc, Deviator: d, Slot: s, Path: nd.Path, Op: name + "@early", Menu: menu, fault: f})
 					}
-					if check == "C05" && !s.Broadcast && alsoBroadcasts(w, s) {
+					if check == "C05" && !s.Broadcast && alsoBroadcasts(w, s) && !(expensive && !vkitThorough()) {
 						// the same malformed p2p message presented after the sender's broadcast has been processed
 						f := faults.ContentFault(s, mut, ops[name], mode)
 						f.Timing = "after-broadcast"
